@@ -123,3 +123,33 @@ Qed.
 Lemma d51_witness :
   exists j, save_doc CPlain sser KTrue VTrue [] f_s = Ok j /\ load_doc CPlain sdeser whash j = Err EKey.
 Proof. eexists. split; vm_compute; reflexivity. Qed.
+
+(* ---- statements used verbatim by Properties/C12.v and C05.v *)
+Lemma to_list_iter_layout_ok c ser km vm f :
+  ids_ok f -> km_ok km -> entries_ok c ser km vm f ->
+  to_list_iter c ser km vm f = Ok (layout c ser km vm f).
+Proof.
+  intros Hids Hkm Hent. apply SerWriterProofs.to_list_iter_layout; [exact Hids|].
+  intros t Ht. apply SerWriterProofs.full_data_spec; [exact Hkm|]. intros Eb. now apply Hent.
+Qed.
+
+Lemma shortening_as_declared km vm d :
+  km_ok km -> dict_ok km vm d ->
+  compress_dict km vm d = Ok (short_dict km vm d) /\
+  uncompress_dict (ikm_of km) (vmj_of vm) (short_dict km vm d) = Ok (canon_dict km d) /\
+  Permutation (canon_dict km d) d.
+Proof.
+  intros Hkm Hd. split; [now apply compress_dict_short|]. split; [now apply uncompress_short|apply canon_perm].
+Qed.
+
+Lemma generated_tables :
+  FILE_FORMAT_VERSION = t_ "1.0" /\
+  TREE_KEY_MAP = [(t_ "data_id", t_ "i"); (t_ "str", t_ "s")] /\
+  TYPED_KEY_MAP = [(t_ "data_id", t_ "i"); (t_ "str", t_ "s"); (t_ "kind", t_ "k")] /\
+  FS_KEY_MAP = [] /\ TREE_VALUE_MAP = [] /\ TYPED_VALUE_MAP = [] /\
+  DEFAULT_CHILD_TYPE = t_ "child" /\
+  (forall c, km_ok (default_key_map c)).
+Proof. repeat split; try reflexivity; apply default_km_ok. Qed.
+
+Lemma iso_meaning f f' : iso f f' -> map erase f = map erase f' /\ map rdid (pre_f f) = map rdid (pre_f f').
+Proof. intros H. split; [exact H|now apply iso_dids]. Qed.
